@@ -71,6 +71,12 @@ def cases(tier, seed):
         yield dict(kind="block", alpha="small", prefix=list(pre), maxlen=b["small_n"])
     for pre in itertools.product(range(len(LINES)), repeat=2):
         yield dict(kind="line_block", prefix=list(pre), maxlen=b["lines_n"])
+    # the tree of a string must still be its tree after the tree has been *used*: every program is parsed, handed to the real docstring
+    # rewriter (doctrans on a scratch copy, each style and direction), and parsed again
+    from mc.checks import c11
+
+    for name, _src in c11.PROGRAMS:
+        yield dict(kind="reparse_after_use", program=name)
     files = _py_files()
     for f in files:
         if os.path.getsize(f) <= b["max_file_bytes"]:
@@ -165,7 +171,39 @@ def _strings(case):
             yield "".join(lines[:i]) + body + tok + nl + "".join(lines[i + 1 :])
 
 
+def run_reparse_after_use(case):
+    import shutil
+    import tempfile
+
+    import cdd.compound.doctrans
+    from mc.checks import c11
+
+    src = dict(c11.PROGRAMS)[case["program"]]
+    viol, n = [], 0
+    d = tempfile.mkdtemp(prefix="c09_")
+    try:
+        for style in ("rest", "google", "numpydoc"):
+            for ta in (True, False):
+                n += 1
+                first = list(check_string(src))
+                p = os.path.join(d, "m_%s_%s.py" % (style, ta))
+                with open(p, "wt") as f:
+                    f.write(src)
+                try:
+                    cdd.compound.doctrans.doctrans(p, style, ta, False)
+                except Exception:
+                    pass
+                for clause, exp, obs in check_string(src):
+                    if (clause, exp, obs) not in first and not any(x["sig"]["check"] == clause for x in viol):
+                        viol.append(dict(sig=dict(check=clause, after="doctrans of the same text"), case=dict(case, style=style, type_annotations=ta), expected=repr(exp)[:300], observed=repr(obs)[:300]))
+    finally:
+        shutil.rmtree(d, ignore_errors=True)
+    return dict(outcome="violation" if viol else "ok:reparse_after_use", transitions=3 * n, evaluations=n, violations=viol, extra=dict(n_case_states=n - 1, strings=n))
+
+
 def run(case):
+    if case["kind"] == "reparse_after_use":
+        return run_reparse_after_use(case)
     n = 0
     viol = []
     seen_clause = set()
@@ -198,7 +236,7 @@ def describe(tier):
     b = _bounds(tier)
     return dict(
         rule="every string of <= {full_n} tokens over the {a}-token lexical alphabet, every string of <= {small_n} tokens "
-        "over the {s}-token quote/bracket/continuation sub-alphabet, every sequence of <= {lines_n} lines over a {nl}-line alphabet of realistic source lines (with and without a final newline), every .py file under cdd/ of <= {max_file_bytes} bytes, and for the {n_mut_files} "
+        "over the {s}-token quote/bracket/continuation sub-alphabet, 12 programs parsed, passed through doctrans (3 styles x 2 directions) and parsed again, every sequence of <= {lines_n} lines over a {nl}-line alphabet of realistic source lines (with and without a final newline), every .py file under cdd/ of <= {max_file_bytes} bytes, and for the {n_mut_files} "
         "smallest non-stub files every single-line deletion and every append of one of {e} tokens to one line; a case is one string; "
         "non-trivial = all of them (each is scanned and parsed by the real code and compared with the input)".format(
             a=len(SIGMA), s=len(SIGMA_SMALL), e=len(EDIT_TOKENS), nl=len(LINES), **b
